@@ -207,7 +207,9 @@ func main() {
 	}
 	var known []ent               // keys ever created (id = order of creation)
 	armors := map[string]string{} // model armor "id/pass" -> real armor
-	passes := []string{"", "pw", "pässwörd-ünïcode", strings.Repeat("long", 40), "x"}
+	long := strings.Repeat("long", 40)
+	// long passphrases that agree on a long prefix: a wrong one must not open what the right one sealed
+	passes := []string{"", "pw", "pässwörd-ünïcode", long, "x", long + "!", long[:len(long)-1] + "X", long[:72], long[:56] + "?"}
 	pass := func() string { return passes[r.Intn(len(passes))] }
 	cur := map[int]string{} // passphrase each key is currently sealed under (driver bookkeeping for generation only)
 	passFor := func(id int) string {
@@ -247,6 +249,16 @@ func main() {
 				return ent{id: 99, addr: types.Address(crypto.GenerateEd25519PrivKey().PublicKey().Address())}
 			}
 			return known[r.Intn(len(known))]
+		}
+		// unobserved side traffic: selecting / reading the coinbase key must not change what any key does
+		if r.Chance(1, 3) {
+			if r.Bool() {
+				_ = kb.SetCoinbase(pick().addr)
+				stats["keybase/side/SetCoinbase"]++
+			} else {
+				_, _ = kb.GetCoinbase()
+				stats["keybase/side/GetCoinbase"]++
+			}
 		}
 		switch c := r.Intn(12); {
 		case c < 2:
